@@ -232,7 +232,7 @@ EXTRA_TEXT = {
            "TargetAreaSnapValidator.validation_method and simple_underlapping_checks are regenerated as well (C10_generated_area_validation, C10_simple_underlapping_checks); "
            "stream S10-generated runs both compiled regenerated validators against the real methods with the geometric sub-decisions scripted on both sides. "
            "is_underlapping, determine_middle_in_triangle and split_to_determine_triangle_errors are regenerated too (C10_generated_is_underlapping, C10_generated_middle_in_triangle, "
-           "C10_generated_triangle) and run against the real functions with a scripted split.",
+           "C10_generated_triangle) and run against the real functions with a scripted split. segment_within_buffer with its helpers is regenerated too: C10_generated_stacking_decision is its closed form.",
     "C12": " Added: determine_intersect and the pair loop of determine_crosscut_abutting_relationships are regenerated; C12_generated_determine_intersect (= Rel.intersectOf, all cases) and "
            "C12_generated_rows (exactly one row per pair of sets that both contain traces, in combinations order, each from its own pair) hold for all inputs.",
     "C13": " Added: C13_underlap_attribute over the regenerated stateful validator (a passing call leaves the class attribute untouched; verdict and written string never depend on its old "
